@@ -420,7 +420,10 @@ def fam_fault(base, kind, at, persist, name, counted_from_open=True, recover_see
     else:
         ls += [f'open 0 {fid(f)} {mode}', f'fault 0 {kind} {at} {persist} rel'] + calls
     ls += ['faultoff 0']
-    # recovery: the handle (if the open succeeded) must behave like one that never saw the failure
+    # recovery: the handle (if the open succeeded) must behave like one that never saw the failure.
+    # first the very same calls again (a failed call must not leave stale cached state that makes its retry go wrong) ...
+    ls += [c for c in calls if not c.startswith('hr ')]
+    # ... then fresh targets
     tg = pcm_targets(rng, f, 50)
     for t in rng.sample(tg, 3):
         ls += [f'ps 0 {t}', 'rf 0 4096', 'rf 0 64']
@@ -468,8 +471,24 @@ def check_c12(pid, tier, seed, replay=None):
                 for persist in (0,1):
                     if quick and persist == 1 and (k + seed) % 2: continue
                     scs.append(fam_fault(b, kind, k, persist, f'flt-{b}-k{kind}-at{k}-p{persist}', recover_seed=seed+k))
+    # retry family: fault inside ONE call (index relative to that call), faults off, the very same call again, reads.
+    RETRY = [('B','ps 0 f:1:1:2:0'), ('B','ps 0 k:0:9:1'), ('B','psp 0 f:0:2:3:0'), ('B','rs 0 o:1:3:0'), ('E','ts 0 1 20000 1'), ('E','tsp 0 2 100 0'),
+             ('B','psl 0 f:1:1:3:0'), ('F','ps 0 f:0:1:2:0'), ('F','psp 0 f:0:1:9:0'), ('H','ps 0 k:0:6:1'), ('T','ps 0 f:1:1:2:0')]
+    rprobes = [Scenario(f'rprobe{i}', [f], [f'open 0 {fid(f)} seek', 'rf 0 64', c, 'clear 0'], 'probe', budget=30) for i,(f,c) in enumerate(RETRY)]
+    rres = run_batch(pid+'r', tier, rprobes, bindir)
+    for i,(f,c) in enumerate(RETRY):
+        evs = [e for e in rres['scn_events'].get(f'rprobe{i}', []) if e.get('e','').endswith(('Seek','SeekPage','SeekLap','SeekPageLap'))]
+        if not evs: continue
+        nrd, nsk = evs[0].get('nrd',0), evs[0].get('nsk',0)
+        for kind, K in ((1,nrd),(2,nrd),(4,nsk)):
+            ks = list(range(1, K+1))
+            if quick and len(ks) > 4: ks = ks[:2] + ks[2::max(1,len(ks)//3)]
+            for k in ks:
+                for pre in (['rf 0 64'], [f'ps 0 e:-5', 'rf 0 2']) if not quick else (['rf 0 64'],):
+                    ls = [f'open 0 {fid(f)} seek'] + pre + [f'fault 0 {kind} {k} 0 rel', c, 'faultoff 0', c, 'rf 0 4096', 'rf 0 64', 'tell 0', 'clear 0']
+                    scs.append(Scenario(f'retry{i}-k{kind}-at{k}-{len(pre)}', [f], ls, 'fault-retry', budget=8, tags=('fault',)))
     res = run_batch(pid, tier, scs, bindir)
-    res['infra'] += pres['infra']
+    res['infra'] += pres['infra'] + rres['infra']
     rules = None   # every rule: a fault scenario may break anything
     def nt(s, evs): return any(e.get('e')=='FaultOff' and e.get('fired',0) > 0 for e in evs)
     return finish(pid, tier, seed, 'fault_enumeration', scs, res, rules, t0,
